@@ -103,12 +103,13 @@ where
         {
             let mut vec = Vec::new();
 
-            while let Some(result) = seq.next_element::<T>().transpose() {
-                let Ok(elem) = result else {
-                    continue;
-                };
-
-                vec.push(elem);
+            // Read every item completely before trying to convert it: an error in the middle of an
+            // item leaves the input in a state from which the next item cannot be read, so it
+            // must end the sequence instead of being skipped.
+            while let Some(value) = seq.next_element::<JsonValue>()? {
+                if let Ok(elem) = T::deserialize(value) {
+                    vec.push(elem);
+                }
             }
 
             Ok(vec)
